@@ -5,7 +5,6 @@
 
 #include <etl/_config/all.hpp>
 
-#include <etl/_limits/numeric_limits.hpp>
 #include <etl/_type_traits/is_constant_evaluated.hpp>
 #include <etl/_type_traits/is_same.hpp>
 
@@ -17,21 +16,7 @@ inline constexpr struct fma {
     template <typename Float>
     [[nodiscard]] constexpr auto operator()(Float x, Float y, Float z) const noexcept -> Float
     {
-        // GCC evaluates the builtin in constant expressions too (for finite arguments); other compilers need the
-        // portable fallback there
-#if defined(TETL_COMPILER_GCC)
-        if (is_constant_evaluated()) {
-            constexpr auto max = etl::numeric_limits<Float>::max();
-            auto const finite  = [](Float v) { return v >= -max and v <= max; };
-            if (not(finite(x) and finite(y) and finite(z))) {
-                return x * y + z;
-            }
-        }
-        constexpr auto useBuiltin = true;
-#else
-        auto const useBuiltin = not is_constant_evaluated();
-#endif
-        if (useBuiltin) {
+        if (not is_constant_evaluated()) {
 #if __has_builtin(__builtin_fmaf)
             if constexpr (is_same_v<Float, float>) {
                 return __builtin_fmaf(x, y, z);
